@@ -28,7 +28,7 @@ class ListQ:
 
     def put(self, x):
         w, sol, st = x
-        self.items.append((int(w), None if sol is None else [int(v) for v in sol], [int(v) for v in st]))
+        self.items.append((int(w), None if sol is None else [int(v) for v in sol], problems.canon_stats(st)))
 
 
 def make_solvers(sc):
@@ -100,7 +100,7 @@ def replay_one(sc, streams, order):
                 raise RuntimeError("parent read beyond the schedule")
             gets.append([w, i])
             m = streams[w - 1][i - 1]
-            return (m[0], None if m[1] is None else np.array(m[1]), np.array(m[2]))
+            return (m[0], None if m[1] is None else np.array(m[1]), problems.engine_stats(m[2]))
 
         def put(self, x):
             pass
@@ -199,7 +199,7 @@ def real_run(sc, victim=-1, kill_before=-1, deadline=25.0, prior=0):
                 out["ret"] = [] if r is None else [int(v) for v in r]
             if victim < 0:
                 out["agg"] = problems.user_stats(m)
-                out["finals"] = [[int(v) for v in s] for s in m.statistics]
+                out["finals"] = [problems.canon_stats(s) for s in m.statistics]
             out["outcome"] = "returned"
         except BaseException as e:  # noqa
             out["raised"] = type(e).__name__ + ":" + str(e)[:80]
